@@ -2,6 +2,8 @@
 From HT Require Import Common.Bytes C14.Model C14.ProofsSum.
 From Coq Require Import ZifyBool ZifyN ZifyNat.
 Open Scope Z_scope.
+Arguments u32 : simpl never.
+Arguments Z.modulo : simpl never.
 
 (* every emitted segment is addressed back: source/destination swapped *)
 Lemma send_addressed c f p :
@@ -92,9 +94,15 @@ Proof.
   unfold data_and_fin.
   assert (Hl : (0 <? zlen (g_payload g)) = true).
   { destruct (g_payload g) as [|x l]; [congruence|]. rewrite zlen_cons. pose proof (zlen_nonneg l). lia. }
-  destruct c as [k st iss una nxt rcv id sip sport dip dport ring rd]; cbn in *. subst.
-  destruct ((una <=? g_ack g) && (g_ack g <=? nxt)); cbn; rewrite Hl, Hfin; cbn;
-    eexists; (split; [reflexivity|]); cbn; repeat split.
+  rewrite Hfin, Hl.
+  destruct c as [k st iss una nxt rcv id sip sport dip dport ring rd]; cbn [c_st] in Hst; subst st.
+  cbn [c_una c_nxt c_rcv c_st c_key c_id c_sip c_dip c_sport c_dport c_ring c_iss c_reader].
+  destruct ((una <=? g_ack g) && (g_ack g <=? nxt));
+    cbn [c_una c_nxt c_rcv c_st c_key c_id c_sip c_dip c_sport c_dport c_ring c_iss c_reader
+         set_seq set_st set_ring set_id send done r_tbl r_out];
+    eexists; (split; [reflexivity|]);
+    cbn [c_una c_nxt c_rcv c_st c_key c_id c_sip c_dip c_sport c_dport c_ring c_iss c_reader
+         set_seq set_st set_ring set_id]; repeat split.
 Qed.
 
 (* data with nothing in it is not acknowledged (and changes no counter) *)
@@ -108,6 +116,9 @@ Proof.
 Qed.
 
 (* ---- FIN in ESTABLISHED is answered by FIN|ACK acknowledging seq+1 ---- *)
+Lemma u32_succ a : u32 (u32 a + 1) = u32 (a + 1).
+Proof. unfold u32. apply Zplus_mod_idemp_l. Qed.
+
 Lemma fin_answered t c g :
   c_st c = Estab ->
   hasf (g_flags g) SYN = false -> hasf (g_flags g) RST = false -> hasf (g_flags g) ACK = true ->
@@ -119,7 +130,45 @@ Proof.
   intros Hst Hsyn Hrst Hack Hfin Hp.
   unfold handle_conn. rewrite Hst, Hsyn, Hrst, Hack. cbn [sstate_eqb andb orb negb].
   unfold data_and_fin. destruct c as [k st iss una nxt rcv id sip sport dip dport ring rd]; cbn in *. subst. rewrite Hp, Hfin.
-  destruct ((una <=? g_ack g) && (g_ack g <=? nxt)); cbn; split; reflexivity.
+  change (zlen []) with 0.
+  destruct ((una <=? g_ack g) && (g_ack g <=? nxt)); cbn; rewrite ?u32_succ, ?Z.add_0_r; split; reflexivity.
+Qed.
+
+(* ---- a FIN is acknowledged in every state in which the client's direction is still open:
+        ESTABLISHED, and FIN-WAIT-1/2 (the listener closed first; the client may or may not have
+        acknowledged the listener's FIN, in this segment or an earlier one).  The FIN may carry
+        data.  The acknowledgement covers the data and the FIN (mod 2^32). ---- *)
+Definition client_open (s : sstate) : bool :=
+  match s with Estab | FinWait1 | FinWait2 => true | _ => false end.
+
+Definition acks_fin (c : conn) (g : seg) (o : out) : Prop :=
+  hasf (o_flags o) ACK = true /\ o_ack o = u32 (g_seq g + zlen (g_payload g) + 1) /\
+  o_sip o = c_dip c /\ o_dip o = c_sip c /\ o_sport o = c_dport c /\ o_dport o = c_sport c /\ o_payload o = [].
+
+Lemma hasf_ack_finack : hasf (FIN + ACK) ACK = true.  Proof. reflexivity. Qed.
+Lemma hasf_ack_ack : hasf ACK ACK = true.  Proof. reflexivity. Qed.
+
+Lemma fin_acked_while_open t c g :
+  client_open (c_st c) = true ->
+  hasf (g_flags g) SYN = false -> hasf (g_flags g) RST = false -> hasf (g_flags g) ACK = true ->
+  hasf (g_flags g) FIN = true ->
+  exists o, In o (r_out (handle_conn t c g)) /\ acks_fin c g o.
+Proof.
+  intros Hst Hsyn Hrst Hack Hfin.
+  unfold handle_conn. rewrite Hsyn, Hrst, Hack. rewrite andb_false_r. cbn [andb orb negb].
+  destruct c as [k st iss una nxt rcv id sip sport dip dport ring rd]; cbn [c_st] in Hst.
+  unfold acks_fin.
+  destruct st; try discriminate Hst; cbn [c_st sstate_eqb andb orb negb set_st];
+    unfold data_and_fin; cbn [c_una c_nxt c_rcv c_st set_seq set_st set_ring c_ring c_key c_id c_sip c_dip c_sport c_dport];
+    destruct ((una <=? g_ack g) && (g_ack g <=? nxt));
+    cbn [c_una c_nxt c_rcv c_st set_seq set_st set_ring c_ring c_key c_id c_sip c_dip c_sport c_dport];
+    destruct (0 <? zlen (g_payload g));
+    cbn [send c_una c_nxt c_rcv c_st set_seq set_st set_ring set_id c_ring c_key c_id c_sip c_dip c_sport c_dport fst snd];
+    rewrite Hfin;
+    cbn [send c_una c_nxt c_rcv c_st set_seq set_st set_ring set_id c_ring c_key c_id c_sip c_dip c_sport c_dport fst snd done r_out];
+    (eexists; split; [apply in_or_app; right; left; reflexivity|]);
+    cbn [o_flags o_ack o_sip o_dip o_sport o_dport o_payload];
+    rewrite u32_succ; repeat split; reflexivity.
 Qed.
 
 (* ---- in-order segment lists: RCV.NXT tracks the byte count for all ISNs ---- *)
@@ -266,11 +315,15 @@ Lemma data_and_fin_other t c g st k :
   k <> c_key c -> find_key (r_tbl (data_and_fin t c g st)) k = find_key t k.
 Proof.
   intros Hne. unfold data_and_fin, done.
-  repeat match goal with
-         | |- context [if ?b then _ else _] => destruct b
-         | |- context [match c_st ?x with _ => _ end] => destruct (c_st x)
-         | |- context [let '(_, _) := send ?a ?b ?c in _] => unfold send
-         end; cbn [r_tbl]; apply tput_other; cbn; exact Hne.
+  destruct c as [k0 st0 iss una nxt rcv id sip sport dip dport ring rd]; cbn [c_key] in Hne.
+  cbn [c_una c_nxt c_rcv c_st c_key c_id c_sip c_dip c_sport c_dport c_ring c_iss c_reader].
+  destruct ((una <=? g_ack g) && (g_ack g <=? nxt)); destruct st0;
+    cbn [c_una c_nxt c_rcv c_st c_key c_id c_sip c_dip c_sport c_dport c_ring c_iss c_reader
+         set_seq set_st set_ring set_id send];
+    destruct (hasf (g_flags g) PSH); destruct (0 <? zlen (g_payload g)); destruct (hasf (g_flags g) FIN);
+    cbn [c_una c_nxt c_rcv c_st c_key c_id c_sip c_dip c_sport c_dport c_ring c_iss c_reader
+         set_seq set_st set_ring set_id send r_tbl];
+    apply tput_other; exact Hne.
 Qed.
 
 (* handling a segment for one State touches no other State of the table ... *)
@@ -301,11 +354,14 @@ Qed.
 (* ... and what is sent depends only on that State and the segment, not on the rest of the table *)
 Lemma data_and_fin_out_indep t t' c g st : r_out (data_and_fin t c g st) = r_out (data_and_fin t' c g st).
 Proof.
-  unfold data_and_fin, done, send.
-  repeat match goal with
-         | |- context [if ?b then _ else _] => destruct b
-         | |- context [match c_st ?x with _ => _ end] => destruct (c_st x)
-         end; cbn; reflexivity.
+  unfold data_and_fin, done.
+  destruct c as [k0 st0 iss una nxt rcv id sip sport dip dport ring rd].
+  cbn [c_una c_nxt c_rcv c_st c_key c_id c_sip c_dip c_sport c_dport c_ring c_iss c_reader].
+  destruct ((una <=? g_ack g) && (g_ack g <=? nxt)); destruct st0;
+    cbn [c_una c_nxt c_rcv c_st c_key c_id c_sip c_dip c_sport c_dport c_ring c_iss c_reader
+         set_seq set_st set_ring set_id send];
+    destruct (hasf (g_flags g) PSH); destruct (0 <? zlen (g_payload g)); destruct (hasf (g_flags g) FIN);
+    reflexivity.
 Qed.
 
 Lemma handle_conn_out_indep t t' c g : r_out (handle_conn t c g) = r_out (handle_conn t' c g).
